@@ -89,18 +89,25 @@ def inputsOf (cs : List (Key × Inst)) : Stmt → List Input
 def inputs (ss : List Stmt) : List Input := ss.flatMap (inputsOf (components ss))
 
 /-- a `LessThan` input `v` assigned in block `b` is covered: some `Num2Bits` of known, qualifying size has the same expression as
-    input — anywhere if the expression is fixed, in the same basic block if it reads a local variable (since the `fix:` 2b59069:
-    `x[i]` after a loop is another element than `x[i]` in its body) -/
-def covered (c : Curve.Curve) (ins : List Input) (v : Val) (b : Nat) : Bool :=
+    input — anywhere if the expression is fixed; if it reads a local variable, in a basic block that dominates `b` (`dom b2 b`, every
+    block dominates itself). Since the `fix:` 2b59069 a check elsewhere does not count (`x[i]` after a loop is another element than
+    `x[i]` in its body); the first version of that repair demanded the same block, which the differential review showed to be too
+    strict (`var total = a + b`, checked once at the top and compared in a loop). `DomCheck.no_redefinition` is why dominance is
+    enough: after the last visit of the checking block no block defining a variable of the expression is visited again. -/
+def covered (c : Curve.Curve) (dom : Nat → Nat → Bool) (ins : List Input) (v : Val) (b : Nat) : Bool :=
   ins.any (fun i => match i with
-    | .num2bits w (some k) b2 => w.1 == v.1 && Curve.rangeChecked c k && (v.2 || b2 == b)
+    | .num2bits w (some k) b2 => w.1 == v.1 && Curve.rangeChecked c k && (v.2 || dom b2 b)
     | _ => false)
 
 /-- `find_unconstrained_less_than`: the values reported under curve `c` (one report per expression) -/
-def reported (c : Curve.Curve) (ss : List Stmt) : List String :=
+def reported (c : Curve.Curve) (dom : Nat → Nat → Bool) (ss : List Stmt) : List String :=
   let ins := inputs ss
   ((ins.filterMap (fun i => match i with
-    | .lessThan v b => if covered c ins v b then none else some v.1
+    | .lessThan v b => if covered c dom ins v b then none else some v.1
     | _ => none))).eraseDups
+
+/-- the dominance relation given by the dominator sets of the blocks (`Cfg::get_dominators`; a block dominates itself) -/
+def domOf (doms : List (Nat × List Nat)) (b2 b : Nat) : Bool :=
+  b2 == b || (match doms.find? (fun e => e.1 == b) with | some e => e.2.contains b2 | none => false)
 
 end Circomspect.LessThanPass
